@@ -207,7 +207,7 @@ def who_thread(h, who, stp, first_tid):
 def coq_history(h):
     """Coq text of (priv, init threads, steps) for one observed history, or None if the observation is unusable."""
     steps = h["steps"]
-    if -1 not in steps or not steps[-1]["T"]:
+    if -1 not in steps or not steps[-1]["T"] or uses_silent(h):
         return None
     priv = "true" if (h["uid"] and h["uid"][0] == 0) else "false"
     init = coq_threads(steps[-1]["T"], {})
@@ -292,6 +292,20 @@ def replay_in_coq(ctx, gen, obs):
 
 
 # ------------------------------------------------------------------------------------------------ direct checks
+# policies of the history language: SILENT ones are valid but cannot answer the probe (their presence shows in the task's
+# filter count only); DENY ones make seccomp(2) itself fail for the thread from then on. Histories that use either are
+# judged by the direct rules only (the kernel model does not run filters on the loader's own system calls).
+SILENT = ("nonames", "allowall", "denyseccomp", "denyseccomp38", "denyprctl")
+VALID = ("ok", "big") + SILENT
+
+
+def uses_silent(h):
+    """... or loads one filter index more than once (the replay identifies a filter by its index)"""
+    loads = [s["op"] for s in h["steps"].values() if s["op"] and s["op"][0] == "load"]
+    return (any(op[5] in SILENT for op in loads) or len(set(op[1] for op in loads)) != len(loads)
+            or sum(1 for op in loads if op[5] == "big") > 2)      # ... or fills the thread's filter chain (the model has no chain limit)
+
+
 def load_steps(h):
     """yield (i, step, pre) for every load / supp step with a result; pre = previous snapshot step"""
     keys = sorted(h["steps"])
@@ -355,7 +369,7 @@ def direct_C09(h):
                     bad.append(dict(step=i, what="LoadFilter returned nil but no filter was added to the calling thread %d" % ct,
                                     expected="Seccomp: 2, Seccomp_filters: %s" % (before + 1 if before is not None else ">= 1"),
                                     actual="Seccomp: %d, Seccomp_filters: %d" % (T1[ct][0], T1[ct][1])))
-                if ct in P1 and idx not in P1[ct]:
+                if ct in P1 and idx not in P1[ct] and pol not in SILENT:
                     bad.append(dict(step=i, what="LoadFilter returned nil but the new filter does not answer the probe on the calling thread %d" % ct,
                                     expected="filter %d active" % idx, actual=P1[ct]))
                 if flags & TSYNC:
@@ -364,7 +378,7 @@ def direct_C09(h):
                             bad.append(dict(step=i, what="thread-sync load returned nil but thread %d does not carry the caller's filters" % t,
                                             expected=list(T1[ct]), actual=list(T1[t])))
                     for t in P1:
-                        if idx not in P1[t]:
+                        if idx not in P1[t] and pol not in SILENT:
                             bad.append(dict(step=i, what="thread-sync load returned nil but the filter is not active on thread %d" % t,
                                             expected="filter %d active" % idx, actual=P1[t]))
         if pol in ("invalid", "nodefault"):
@@ -408,7 +422,7 @@ def direct_C10(h):
                                     expected="Seccomp: 2", actual=list(T1[t])))
             for later in [stp] + later_steps(h, i):
                 for t, s in list(later["P"].items()) + list(later["W"].items()):
-                    if idx not in s:
+                    if idx not in s and pol not in SILENT:
                         bad.append(dict(step=i, what="thread-sync load returned nil but a system call begun afterwards on thread %d is not filtered" % t,
                                         expected="filter %d active" % idx, actual=s))
                 for t in later["T"]:
@@ -438,7 +452,8 @@ def direct_C11(h):
         T0, T1 = pre["T"], stp["T"]
         ct = caller_tid(h, who, stp)
         priv = privileged_at(h, i)
-        valid = pol == "ok"
+        valid = pol in VALID and not any(st2["op"] and st2["op"][0] == "load" and st2["op"][5].startswith("deny")
+                                         for j, st2 in h["steps"].items() if 0 <= j < i)
         if nnp and stp["C"]:
             st_tid = stp["C"][-1][0]
             if st_tid in T1 and T1[st_tid][2] != 1:
@@ -483,6 +498,23 @@ def gen_C09(rng, n):
         # flags with a listener (returns a descriptor in r1) and illegal combinations
         "actor 0;load 1 a0 0 8 ok;load 2 a0 0 9 ok;load 3 a0 0 32 ok;load 4 a0 0 16 ok;load 5 a0 0 4 ok",
     ]
+    forced += [
+        # valid policies that change no decision: nil still means one more filter on the thread (and the bit, if requested)
+        "actor 0;load 1 a0 1 0 nonames;load 2 a0 0 0 allowall;load 3 a0 0 0 ok;probe",
+        "actor 0;actor 1;load 1 a0 0 1 allowall;load 2 a1 1 1 nonames;probe",
+        "drop;actor 0;load 1 a0 1 0 nonames;load 2 a0 1 0 allowall;load 3 g 0 0 allowall;probe",
+        # the same filter loaded again after the kernel refused it the first time
+        "actor 0;actor 1;load 1 a1 0 0 ok;load 2 a0 0 1 ok;exit 1;load 2 a0 0 1 ok;probe",
+        "actor 0;actor 1;load 1 a1 1 0 ok;load 2 a0 1 3 ok;load 2 a0 1 3 ok;exit 1;load 2 a0 1 3 ok;load 2 a0 1 3 ok;probe",
+        "actor 0;load 1 a0 0 128 ok;load 1 a0 0 0 ok;load 1 a0 0 0 ok;probe",
+        # probing for support on a thread whose filter answers seccomp(2) with an error
+        "actor 0;actor 1;load 1 a0 0 0 denyseccomp;supp a0;supp a1;supp g;load 2 a0 1 0 ok;supp a0;probe",
+        "actor 0;load 1 a0 0 0 denyseccomp38;supp a0;load 2 a0 0 1 ok;load 3 a0 1 3 ok;supp a0;probe",
+        # prctl(2) answered with an error by an earlier filter: a load that asks for the bit fails, one that does not succeeds
+        "actor 0;load 1 a0 0 0 denyprctl;load 2 a0 1 0 ok;load 3 a0 0 0 ok;load 4 a0 1 1 ok;probe",
+        # the thread's filter chain filled up to the kernel's limit (32768 instructions, 4 extra per filter): ENOMEM is an error
+        "actor 0;actor 1;load 1 a0 1 0 big;load 2 a0 0 0 big;load 3 a0 0 0 big;load 4 a0 0 0 big;load 5 a0 0 0 big;load 6 a0 0 0 big;load 7 a0 0 0 big;load 8 a0 0 0 big;load 9 a0 0 0 big;load 10 a0 0 1 big;load 11 a0 0 3 big;load 12 a0 0 0 ok;probe",
+    ]
     for t in forced:
         hs.append(t)
     while len(hs) < n:
@@ -494,14 +526,17 @@ def gen_C09(rng, n):
         nxt = nact
         idx = 0
         dropped = False
+        direct_only = rng.random() < 0.2      # histories judged by the direct rules only (see SILENT)
         for _ in range(rng.randint(3, 8)):
             r = rng.random()
             if r < 0.62 and idx < 8:
                 idx += 1
                 who = ("a%d" % rng.choice(alive)) if alive and rng.random() < 0.75 else "g"
                 flags = rng.choice([0, 0, 1, 1, 1, 2, 3, 3, 128, 0x41, 16, 4])
-                pol = rng.choice(["ok"] * 8 + ["invalid", "nodefault", "oversize"])
+                pol = rng.choice(["ok"] * 8 + ["invalid", "nodefault", "oversize"] + (["nonames", "allowall", "nonames"] if direct_only else []))
                 ops.append("load %d %s %d %d %s" % (idx, who, rng.randint(0, 1), flags, pol))
+                if direct_only and rng.random() < 0.3:
+                    ops.append(ops[-1])          # the same filter once more
             elif r < 0.72:
                 ops.append("supp %s" % (("a%d" % rng.choice(alive)) if alive and rng.random() < 0.5 else "g"))
             elif r < 0.80 and len(alive) > 1:
@@ -518,6 +553,25 @@ def gen_C09(rng, n):
         ops.append("probe")
         hs.append(";".join(ops))
     return hs
+
+
+def forced_C10():
+    return [
+        # a load the kernel refuses with EINVAL (program too long, unknown flag bit), then loads whose flag words must reach it unchanged
+        "actor 0;bg 1 sleep;load 1 a0 0 2 oversize;load 2 a0 0 3 ok;wake;load 3 a0 1 2 ok;probe",
+        "actor 0;bg 1 sleep;bg 2 pipe;load 1 a0 0 3 oversize;load 2 a0 0 130 ok;load 3 g 0 3 ok;wake;load 4 a0 0 2 ok;probe",
+        # thread-sync without privilege and without no_new_privs: refused (EACCES) - never "nil for the calling thread only"
+        "drop;actor 0;bg 1 sleep;bg 2 pipe;load 1 a0 0 1 ok;load 2 a0 0 3 ok;wake;load 3 a0 1 1 ok;probe",
+        "actor 0;bg 1 sleep;drop;load 1 g 0 1 ok;wake;probe",
+        # seccomp(2) itself answered with ENOSYS / EPERM by an earlier filter of the thread: a thread-sync load must fail, not fall back
+        "actor 0;bg 1 sleep;bg 2 pipe;load 1 a0 0 0 denyseccomp38;load 2 a0 1 1 ok;load 3 a0 1 3 ok;wake;probe",
+        "actor 0;bg 1 sleep;load 1 a0 1 0 denyseccomp;load 2 a0 1 1 ok;wake;probe",
+        # the same filter again on the same thread, now with thread-sync: it must reach every thread
+        "actor 0;bg 1 sleep;bg 2 pipe;load 1 a0 1 0 ok;load 1 a0 1 1 ok;wake;actor 3;probe",
+        "actor 0;bg 1 sleep;load 1 a0 0 2 ok;load 1 a0 0 3 ok;load 1 a0 0 1 ok;wake;probe",
+        # thread-sync of filters that change no decision
+        "actor 0;bg 1 sleep;bg 2 spin;load 1 a0 1 1 nonames;load 2 a0 0 1 allowall;wake;actor 3;probe",
+    ]
 
 
 def gen_C10(rng, sizes, per_size):
@@ -558,7 +612,23 @@ def gen_C10(rng, sizes, per_size):
 
 
 def gen_C11(rng, thorough):
-    hs = []
+    hs = [
+        # filters that change no decision: the bit is still set iff requested, an unprivileged load without it still fails
+        "actor 0;load 1 a0 1 0 allowall;load 2 a0 1 0 nonames;probe",
+        "drop;actor 0;load 1 a0 0 0 allowall;load 2 a0 0 0 nonames;load 3 a0 1 0 allowall;load 4 g 1 0 nonames;probe",
+        "actor 0;load 1 a0 0 0 nonames;load 2 a0 1 0 ok;probe",
+        # prctl(2) answered with an error by an earlier filter (as root): the bit cannot be set, so the load must not succeed without it
+        "actor 0;load 1 a0 0 0 denyprctl;load 2 a0 1 0 ok;load 3 a0 1 1 ok;load 4 g 1 0 ok;probe",
+        # a second load with the bit requested on a thread that already carries a filter loaded WITHOUT it (as root)
+        "actor 0;load 1 a0 0 0 ok;load 2 a0 1 0 ok;probe",
+        "actor 0;actor 1;load 1 a0 0 1 ok;load 2 a1 1 0 ok;load 3 a0 1 2 ok;probe",
+        "actor 0;load 1 a0 0 0 ok;drop;load 2 a0 1 0 ok;load 3 g 1 0 ok;probe",
+    ]
+    # a large policy (tens of milliseconds between entering LoadFilter and the seccomp call) loaded from an unpinned
+    # goroutine under scheduling pressure: bit and filter must still land on the same thread
+    for rep in range(6 if thorough else 3):
+        hs.append("actor 0;load 1 gp 1 0 big;probe")
+        hs.append("drop;actor 0;load 1 gp 1 %d big;probe" % (2 if rep % 2 else 0))
     for priv in (True, False):
         for nnp in (0, 1):
             for flags in (0, 1, 2, 3):
@@ -734,26 +804,26 @@ def run_check(ctx, prop, prop_file, theorems, hist_texts, replay, rule, jobs=8):
 
 def check_C09(ctx, replay=None):
     rng = random.Random(ctx.seed * 1000003 + 9)
-    n = 30 if ctx.tier == "quick" else 240
+    n = 36 if ctx.tier == "quick" else 240
     run_check(ctx, "C09", "C09.v", C09_THEOREMS, gen_C09(rng, n), replay,
-              "load histories from the seeded generator plus six forced ones (refused thread-sync by a divergent / an ahead thread, unknown flag bits 0x80 / 0x40 / illegal combinations, a 5000-instruction program, invalid policies, dropped privilege, listener flag), each executed by the real LoadFilter/Supported in a fresh child process (loads from locked OS threads and from ordinary goroutines) and replayed on the model inside Coq; every step compares result class, per-task Seccomp/Seccomp_filters and the set of filters answering the probe syscall; non-trivial = distinct history containing a kernel refusal (EINVAL/EACCES/thread-sync) or a successful thread-sync with several tasks")
+              "load histories from the seeded generator plus sixteen forced ones (refused thread-sync by a divergent / an ahead thread, unknown flag bits 0x80 / 0x40 / illegal combinations, a 5000-instruction program, invalid policies, dropped privilege, listener flag; valid policies that change no decision - no names, all allow -; the same filter loaded again after a refusal; Supported() on a thread whose filter answers seccomp(2) with EPERM / ENOSYS; prctl(2) answered with EPERM; the filter chain filled to the kernel's ENOMEM limit), each executed by the real LoadFilter/Supported in a fresh child process (loads from locked OS threads and from ordinary goroutines) and replayed on the model inside Coq; every step compares result class, per-task Seccomp/Seccomp_filters and the set of filters answering the probe syscall; non-trivial = distinct history containing a kernel refusal (EINVAL/EACCES/thread-sync) or a successful thread-sync with several tasks")
 
 
 def check_C10(ctx, replay=None):
     rng = random.Random(ctx.seed * 1000003 + 10)
     if ctx.tier == "quick":
-        hs = gen_C10(rng, [1, 2, 4], 1) + gen_C10(rng, [16], 1)[:4] + gen_C10(rng, [64], 1)[1:2]
+        hs = forced_C10() + gen_C10(rng, [1, 2, 4], 1) + gen_C10(rng, [16], 1)[:4] + gen_C10(rng, [64], 1)[1:2]
     else:
-        hs = gen_C10(rng, [1, 2, 3, 4, 8], 4) + gen_C10(rng, [16, 32], 2) + gen_C10(rng, [64], 2)
+        hs = forced_C10() + gen_C10(rng, [1, 2, 3, 4, 8], 4) + gen_C10(rng, [16, 32], 2) + gen_C10(rng, [64], 2)
     run_check(ctx, "C10", "C10.v", C10_THEOREMS, hs, replay,
-              "one process per history with N in {1,2,4,16,64} (thorough: more) extra OS threads that spin, sleep in nanosleep, block in read(2) on a pipe or keep creating threads while the load runs, flags in {0,tsync,log,tsync|log}, loads from a locked thread or an ordinary goroutine, optional earlier filter, random delay; after an atomic 'load returned' flag every thread issues the probe system calls, a thread created afterwards probes too; hook H2 records op/flags/len; compared with the model replay and checked directly; non-trivial = distinct history with at least two controlled threads",
+              "nine forced histories (a load refused with EINVAL followed by loads whose flag words must arrive unchanged; thread-sync without privilege and without no_new_privs; seccomp(2) itself answered with ENOSYS / EPERM by an earlier filter; the same filter loaded again with thread-sync; thread-sync of filters that change no decision) and one process per history with N in {1,2,4,16,64} (thorough: more) extra OS threads that spin, sleep in nanosleep, block in read(2) on a pipe or keep creating threads while the load runs, flags in {0,tsync,log,tsync|log}, loads from a locked thread or an ordinary goroutine, optional earlier filter, random delay; after an atomic 'load returned' flag every thread issues the probe system calls, a thread created afterwards probes too; hook H2 records op/flags/len; compared with the model replay and checked directly; non-trivial = distinct history with at least two controlled threads",
               jobs=6)
 
 
 def check_C11(ctx, replay=None):
     rng = random.Random(ctx.seed * 1000003 + 11)
     run_check(ctx, "C11", "C11.v", C11_THEOREMS, gen_C11(rng, ctx.tier != "quick"), replay,
-              "the full matrix {root, uid nobody} x {NoNewPrivs requested or not} x flags {0,1,2,3} x {locked OS thread, ordinary goroutine, ordinary goroutine with a forced migration attempt at the schedule point between prctl and seccomp (GOMAXPROCS(1), busy second goroutine, 30 ms sleeps)} plus random multi-load histories; per step: result, per-task NoNewPrivs/Seccomp, thread of the seccomp(2) call; non-trivial = distinct history run unprivileged or with a migration attempt")
+              "the full matrix {root, uid nobody} x {NoNewPrivs requested or not} x flags {0,1,2,3} x {locked OS thread, ordinary goroutine, ordinary goroutine with a forced migration attempt at the schedule point between prctl and seccomp (GOMAXPROCS(1), busy second goroutine, 30 ms sleeps)} plus random multi-load histories, plus forced ones: filters that change no decision, prctl(2) answered with EPERM by an earlier filter, a second load with the bit requested on a thread filtered without it, and a 4000-instruction policy loaded from an unpinned goroutine under scheduling pressure (GC loops, eight timer goroutines); per step: result, per-task NoNewPrivs/Seccomp, thread of the seccomp(2) call; non-trivial = distinct history run unprivileged or with a migration attempt")
 
 
 CHECKS = {"C09": check_C09, "C10": check_C10, "C11": check_C11}
